@@ -357,10 +357,11 @@ func init() {
 		Cases: func(tier string, seed int64) []fw.Case {
 			l := mkCases(nil, "ops", 64, seed, pick(tier, 100, 10000))
 			l = mkCases(l, "concurrent", 8, seed, pick(tier, 40, 2000))
+			l = mkCases(l, "drawnstalemate", 8, seed, pick(tier, 30, 1500))
 			return mkCases(l, "deepwalk", 8, seed, pick(tier, 1, 6))
 		},
 		Floors: func(string) map[string]int64 {
-			return map[string]int64{"pops": 5000, "forks": 200, "pop_castle": 10, "pop_ep": 1, "pop_promotion": 10, "pop_capture": 500, "scratch_compares": 1000, "illegal_pushes": 200, "pop_at_root": 10, "deepwalk_pushes": 100000,
+			return map[string]int64{"drawn_then_stalemate_takebacks": 100, "drawn_then_stalemate_continuations": 500, "pops": 5000, "forks": 200, "pop_castle": 10, "pop_ep": 1, "pop_promotion": 10, "pop_capture": 500, "scratch_compares": 1000, "illegal_pushes": 200, "pop_at_root": 10, "deepwalk_pushes": 100000,
 				"ev_repetition_first_after_fork": 5, "query_rounds": 20000, "concurrent_sessions": 100, "concurrent_ops": 10000}
 		},
 		RaceKinds: map[string]bool{"concurrent": true},
@@ -368,6 +369,12 @@ func init() {
 			r := cs.Rand()
 			if cs.Kind == "concurrent" {
 				concurrentForks(c, r, cs.N)
+				return
+			}
+			if cs.Kind == "drawnstalemate" {
+				for i := 0; i < cs.N; i++ {
+					drawnThenStalemate(c, r)
+				}
 				return
 			}
 			if cs.Kind == "deepwalk" {
@@ -651,4 +658,118 @@ func sensitivity(c *fw.Ctx, r *rand.Rand, zt *board.ZobristTable, p ref.Pos) {
 			probe("piece", q)
 		}
 	}
+}
+
+// drawnThenStalemate: a game that is played on after an unclaimed draw (here: the half-move clock is past 100)
+// reaches a stalemate, which is adjudicated on the board itself the way a search does it; the stalemating move
+// is taken back. Everything but the (drawn) result must be as before the move, and play must continue exactly
+// as on a twin board that never made the move: every legal move accepted, with the same outcome.
+func drawnThenStalemate(c *fw.Ctx, r *rand.Rand) {
+	for try := 0; try < 3000; try++ {
+		var p ref.Pos
+		p.EP = -1
+		p.White = false
+		p.Half = 100 + r.Intn(40)
+		p.Full = 60 + r.Intn(60)
+		corner := []int{0, 7, 56, 63}[r.Intn(4)]
+		bk := corner
+		if r.Intn(2) == 0 {
+			bk = r.Intn(64)
+		}
+		p.B[bk] = -ref.King
+		for _, v := range []int8{ref.King, []int8{ref.Queen, ref.Rook, ref.Queen}[r.Intn(3)], []int8{0, 0, ref.Pawn, ref.Bishop, ref.Knight}[r.Intn(5)]} {
+			if v == 0 {
+				continue
+			}
+			sq := r.Intn(64)
+			if p.B[sq] != 0 || (v == ref.Pawn && (ref.Rank(sq) == 0 || ref.Rank(sq) == 7)) {
+				continue
+			}
+			p.B[sq] = v
+		}
+		if p.KingSq(true) < 0 || p.InCheck(true) {
+			continue
+		}
+		if k := p.KingSq(true); abs(ref.File(k)-ref.File(bk)) <= 1 && abs(ref.Rank(k)-ref.Rank(bk)) <= 1 {
+			continue
+		}
+		if r.Intn(2) == 0 {
+			p = p.Mirror()
+		}
+		// a first move b1 by the side to move, then a quiet stalemating move s by the other side
+		var b1, st ref.Move
+		found := false
+		for _, m := range p.LegalMoves() {
+			q := p.Apply(m)
+			if m.Kind != ref.KNormal {
+				continue
+			}
+			for _, m2 := range q.LegalMoves() {
+				q2 := q.Apply(m2)
+				if (m2.Kind == ref.KNormal || m2.Kind == ref.KPush) && len(q2.LegalMoves()) == 0 && !q2.InCheck(q2.White) && len(q.LegalMoves()) > 1 {
+					b1, st, found = m, m2, true
+				}
+			}
+		}
+		if !found {
+			continue
+		}
+		b, err := adapt.Board(zt0, p)
+		twin, err2 := adapt.Board(zt0, p)
+		if err != nil || err2 != nil || !adapt.Push(b, b1) || !adapt.Push(twin, b1) {
+			return
+		}
+		c.Eval(1)
+		if b.Result().Outcome != board.Draw {
+			c.Violate("result:missed-fifty", "half-move clock %d after %v and the board is not drawn: %q", p.Half+1, b1, p.FEN())
+			return
+		}
+		before := adapt.TakeSnap(b)
+		if !adapt.Push(b, st) {
+			c.Violate("game:push-refused", "legal move %v refused on a board drawn by the clock (play goes on after an unclaimed draw): %q after %v", st, p.FEN(), b1)
+			return
+		}
+		res := b.AdjudicateNoLegalMoves()
+		if res.Outcome != board.Draw || res.Reason != board.Stalemate {
+			c.Violate("result:adjudicate-stalemate", "stalemate adjudicated as %v: %q after %v %v", res, p.FEN(), b1, st)
+		}
+		if _, ok := b.PopMove(); !ok {
+			c.Violate("history:pop-refused", "take-back refused after an adjudicated stalemate: %q after %v %v", p.FEN(), b1, st)
+			return
+		}
+		c.Count("drawn_then_stalemate_takebacks", 1)
+		if d := adapt.TakeSnap(b).DiffNoResult(before); d != "" {
+			c.Violate("history:pop-restore", "after taking back the stalemating move %v: %s; %q after %v", st, d, p.FEN(), b1)
+		}
+		cur := p.Apply(b1)
+		for _, m := range cur.LegalMoves() {
+			ok1, ok2 := adapt.Push(b, m), adapt.Push(twin, m)
+			c.Eval(1)
+			c.Count("drawn_then_stalemate_continuations", 1)
+			if ok1 != ok2 {
+				c.Violate("history:pop-continue", "after a stalemating move (adjudicated on the board) was taken back, move %v is accepted=%v, on a board that never made it accepted=%v: %q after %v, taken back %v", m, ok1, ok2, p.FEN(), b1, st)
+			} else if ok1 {
+				if d := adapt.TakeSnap(b).DiffNoResult(adapt.TakeSnap(twin)); d != "" {
+					c.Violate("history:pop-continue", "after a stalemating move was taken back, play continues differently with %v: %s; %q after %v", m, d, p.FEN(), b1)
+				}
+				if x, y := b.Result().Outcome, twin.Result().Outcome; x != y {
+					c.Violate("history:pop-continue", "after a stalemating move was taken back, %v gives outcome %v, on a board that never made it %v: %q after %v", m, x, y, p.FEN(), b1)
+				}
+			}
+			if ok1 {
+				b.PopMove()
+			}
+			if ok2 {
+				twin.PopMove()
+			}
+		}
+		return
+	}
+}
+
+func abs(x int) int {
+	if x < 0 {
+		return -x
+	}
+	return x
 }
